@@ -213,6 +213,7 @@ def run(ctx):
 
     res = [x for x in pmap(one, jobs) if x]
     two_versions(ctx, home, bases[:(3 if quick else 20)], quick)
+    fixed_pairs(ctx, home)
     seen = set()
     for x in res:
         if x["edit"] not in seen and len(seen) < 8:
@@ -257,6 +258,54 @@ def two_versions(ctx, home, bases, quick):
                     ctx.violation("no-warning:two-versions:%s" % info["name"], "%s: the partially compatible change relative to vdiff produced no warning" % what, case); bad = True
                 if not bad:
                     shutil.rmtree(cdir, ignore_errors=True)
+
+
+def fixed_pairs(ctx, home):
+    """pairs written as text for constructs the edit generator does not produce: types of an imported package used by the evolving package
+    (identical, changed compatibly, changed incompatibly), enum values that change sign, flags and enum bases"""
+    lib = "Point: !record\n  fields:\n    x: %s\n    y: float\nColor: !enum\n  values:\n    red: 1\n    green: %s\n"
+    app = ("Shape: !record\n  fields:\n    center: Lib.Point\n    c: Lib.Color\n    n: int\n"
+           "P: !protocol\n  sequence:\n    s: Shape\n    pts: !stream\n      items: Lib.Point\n    col: Lib.Color\n")
+    enum = "Status: !enum\n%s  values:\n    ok: 0\n    error: %s\n    big: %s\nP: !protocol\n  sequence:\n    s: Status\n    v: Status*\n"
+
+    def imported(old_lib, new_lib):
+        return {"old/_package.yml": "namespace: App\nimports:\n  - ../oldlib\n", "old/a.yml": app, "oldlib/_package.yml": "namespace: Lib\n", "oldlib/l.yml": old_lib,
+                "new/_package.yml": "namespace: App\nimports:\n  - ../newlib\nversions:\n  v0: ../old\n", "new/a.yml": app, "newlib/_package.yml": "namespace: Lib\n", "newlib/l.yml": new_lib}
+
+    def local(old, new):
+        return {"old/_package.yml": "namespace: App\n", "old/a.yml": old, "new/_package.yml": "namespace: App\nversions:\n  v0: ../old\n", "new/a.yml": new}
+    cases = [
+        ("imported-types-identical", imported(lib % ("float", 2), lib % ("float", 2)), "accept"),
+        ("imported-types-shared-directory", dict(imported(lib % ("float", 2), lib % ("float", 2)), **{"old/_package.yml": "namespace: App\nimports:\n  - ../newlib\n"}), "accept"),
+        ("imported-record-field-to-string-array", imported(lib % ("float", 2), lib % ("string*", 2)), "reject"),
+        ("imported-enum-value-changed", imported(lib % ("float", 2), lib % ("float", 3)), "reject"),
+        ("enum-identical-with-negative-values", local(enum % ("  base: int64\n", -1, -4611686018427387904), enum % ("  base: int64\n", -1, -4611686018427387904)), "accept"),
+        ("enum-value-sign-flipped", local(enum % ("", -1, 7), enum % ("", 1, 7)), "reject"),
+        ("enum-large-value-sign-flipped", local(enum % ("  base: int64\n", 5, -4611686018427387904), enum % ("  base: int64\n", 5, 4611686018427387904)), "reject"),
+        ("enum-value-off-by-2-pow-64", local(enum % ("  base: uint64\n", 5, 1), enum % ("  base: uint64\n", 5, 18446744073709551615)), "reject"),
+        ("enum-value-to-negative-zero-distance", local(enum % ("", 3, 9), enum % ("", -3, -9)), "reject"),
+    ]
+    for name, files, expect in cases:
+        cdir = os.path.join(ctx.workdir, "cases", "fixed_" + name)
+        shutil.rmtree(cdir, ignore_errors=True)
+        common.write_tree(cdir, files)
+        pn = cli.run_cli("validate", os.path.join(cdir, "new"), home)
+        po = cli.run_cli("validate", os.path.join(cdir, "old"), home)
+        ctx.ev(2)
+        ctx.case(("fixed-pair", name))
+        ctx.count("fixed-pairs." + expect)
+        v = verdict(pn)
+        case = {"case_dir": cdir, "stderr": cli.clean(pn.stderr)[-1200:]}
+        if po.rc != 0:
+            raise Inconclusive("fixed pair %s: the old version alone is rejected: %s" % (name, cli.clean(po.stderr)[:300]))
+        if v["panic"]:
+            ctx.violation("panic@%s" % v["panic"], "fixed pair %s: crash" % name, case)
+        elif expect == "accept" and v["rc"] != 0:
+            ctx.violation("unchanged-rejected:%s" % name, "fixed pair %s: the two versions are identical but the package is rejected: %s" % (name, v["errors"][:1]), case)
+        elif expect == "reject" and (v["rc"] != 1 or not v["errors"]):
+            ctx.violation("breaking-accepted:%s" % name, "fixed pair %s: a documented breaking change is accepted (rc=%s)" % (name, v["rc"]), case)
+        else:
+            shutil.rmtree(cdir, ignore_errors=True)
 
 
 def replay(ctx, path):
